@@ -118,7 +118,7 @@ class Script:
                 args = [self.value(a, "cbarg") for a in t[1]]
                 ret = None if t[2] == ("unit",) else self.value(t[2], "cbret")
                 inv.append((args, ret))
-            return {"cb": self.cb_counter, "inv": inv, "destructor": r.random() < 0.8 or self.lang == "cpp"}
+            return {"cb": self.cb_counter, "inv": inv, "destructor": r.random() < 0.8 or self.lang == "cpp", "null_data": r.random() < 0.3}
         if k == "write":
             nch = r.choice([0, 1, 2, 3, 5, 8])
             chunks = [r.choice(CHUNKS) for _ in range(nch)]
@@ -340,7 +340,14 @@ class Script:
                     effects.append("let vf_r = %s; crate::vf::log(format!(\"CBRET {}\", crate::vf::c(&vf_r)));" % call)
             if pt[0] == "write":
                 for ch in args[pn]["chunks"]:
-                    effects.append("let _ = %s.write_str(%s);" % (rust_ident(pn), rust_str_lit(ch)))
+                    # the three entry points bridge code really uses; each delivers the chunk as one write
+                    style = r.random()
+                    if len(ch) == 1 and style < 0.5:
+                        effects.append("let _ = %s.write_char('\\u{%x}');" % (rust_ident(pn), ord(ch)))
+                    elif style < 0.3:
+                        effects.append("let _ = write!(%s, \"{}\", %s);" % (rust_ident(pn), rust_str_lit(ch)))
+                    else:
+                        effects.append("let _ = %s.write_str(%s);" % (rust_ident(pn), rust_str_lit(ch)))
         created = []
         self.realize_new(m.ret, ret, lines_r := [], created)
         lines += [("R", l) for l in lines_r]
